@@ -481,10 +481,10 @@ def assigned_globals(ix, g: FuncInfo) -> set[str]:
     return out
 
 
-def run_only_once_slot(chk: Check, ix) -> None:
-    """R10.4: a once-per-build slot is claimed only by a message that is recorded."""
+def run_only_once_slot(chk: Check, ix, rid: str = "R10.4") -> None:
+    """R10.4 / R13.10: a once-per-build slot is claimed only by a message that is recorded."""
     from ..cfg import CFG, call_name
-    r4 = chk.rule("R10.4", "Errors.add_error_info claims a slot in only_once_messages (the build-wide set that makes a note appear once) only on a path that goes on to record the message (_add_error_info / note_for_info): every early return that drops the message (ErrorWatcher filters, `# type: ignore`, ignored files) comes before the slot is claimed; a suppressed occurrence that claims the slot removes the note from the module where it is visible, and which occurrence is first depends on the order of the file arguments", floor=2)
+    r4 = chk.rule(rid, "Errors.add_error_info claims a slot in only_once_messages (the build-wide set that makes a note appear once) only on a path that goes on to record the message (_add_error_info / note_for_info): every early return that drops the message (ErrorWatcher filters, `# type: ignore`, ignored files) comes before the slot is claimed; a suppressed occurrence that claims the slot removes the note from the module where it is visible, and which occurrence is first depends on the order of the file arguments", floor=2)
     f = ix.func("mypy.errors.Errors.add_error_info")
     g = CFG(f.node)
     adds = [n for n in g.nodes if any(isinstance(c.func, ast.Attribute) and c.func.attr == "add" and isinstance(c.func.value, ast.Attribute) and c.func.value.attr == "only_once_messages" for c in n.calls())]
